@@ -55,6 +55,10 @@ impl Rec {
     }
 }
 
+pub fn col_key(c: &Column<Any>) -> String {
+    col_key_any(c)
+}
+
 fn col_key_any(c: &Column<Any>) -> String {
     match c.column_type() {
         Any::Advice(_) => format!("a{}", c.index()),
